@@ -56,7 +56,25 @@ type world struct {
 func (w *world) violate(key, what string) { w.e.Rep.Violate(key, what, w.c) }
 
 // checkDir: the C05 predicate on a directory as it is right now.
+// A background conjoin (its own goroutine in the store) may replace the manifest and unlink the conjoinees
+// between our read of the manifest and our stat of a file: the predicate is about one instant, so a miss is
+// only reported if the manifest is still the one that was read (otherwise the check is repeated).
 func (w *world) checkDir(dir, when string) (root hash.Hash, ok bool) {
+	for try := 0; ; try++ {
+		root, ok, raced := w.checkDirOnce(dir, when, try < 4)
+		if !raced {
+			return root, ok
+		}
+		w.e.Rep.Hit("check:raced-with-manifest-change")
+	}
+}
+
+func (w *world) checkDirOnce(dir, when string, mayRetry bool) (root hash.Hash, ok bool, raced bool) {
+	r, o := w.checkDir1(dir, when, mayRetry, &raced)
+	return r, o, raced
+}
+
+func (w *world) checkDir1(dir, when string, mayRetry bool, raced *bool) (root hash.Hash, ok bool) {
 	b, err := os.ReadFile(filepath.Join(dir, "manifest"))
 	if errors.Is(err, os.ErrNotExist) {
 		return hash.Hash{}, true
@@ -76,6 +94,12 @@ func (w *world) checkDir(dir, when string) (root hash.Hash, ok bool) {
 	}
 	for _, s := range append(append([]nbs.VerifManSpec{}, mc.Specs...), mc.Appendix...) {
 		ex, err := nbs.VerifManTableFileOrArchiveExists(dir, s.Name)
+		if (err != nil || !ex) && mayRetry {
+			if nb, _ := os.ReadFile(filepath.Join(dir, "manifest")); string(nb) != string(b) {
+				*raced = true
+				return mc.Root, false
+			}
+		}
 		if err != nil || !ex {
 			w.violate("C05/manifest-names-missing-file", fmt.Sprintf("%s: the manifest names table file %s which is not in the directory", when, s.Name.String()))
 			return mc.Root, false
@@ -91,9 +115,16 @@ func (w *world) crashCopy(when string, allowed ...hash.Hash) {
 	dst := filepath.Join(w.e.Scratch, fmt.Sprintf("crash-%d", w.crashN))
 	os.RemoveAll(dst)
 	os.MkdirAll(dst, 0o755)
+	// the manifest first: everything it names exists at that instant (that is the property), and table files
+	// are immutable, so copying them afterwards yields a state the directory could have crashed in — unless a
+	// background conjoin unlinks conjoinees meanwhile; then the manifest has changed and the image is discarded
+	mb, _ := os.ReadFile(filepath.Join(w.dir, "manifest"))
+	if mb != nil {
+		os.WriteFile(filepath.Join(dst, "manifest"), mb, 0o644)
+	}
 	ents, _ := os.ReadDir(w.dir)
 	for _, en := range ents {
-		if en.IsDir() || en.Name() == "LOCK" {
+		if en.IsDir() || en.Name() == "LOCK" || en.Name() == "manifest" {
 			continue
 		}
 		src, err := os.Open(filepath.Join(w.dir, en.Name()))
@@ -104,6 +135,11 @@ func (w *world) crashCopy(when string, allowed ...hash.Hash) {
 		io.Copy(d, src)
 		d.Close()
 		src.Close()
+	}
+	if nb, _ := os.ReadFile(filepath.Join(w.dir, "manifest")); string(nb) != string(mb) {
+		w.e.Rep.Hit("crash-image:discarded-manifest-changed-during-copy")
+		os.RemoveAll(dst)
+		return
 	}
 	root, ok := w.checkDir(dst, "crash-image "+when)
 	if ok {
